@@ -4,6 +4,6 @@ CONSTANTS
   M = 7
   Script <- ScriptA
   SlotOf <- Slots7
-  ParentNotEmpty = FALSE
+  ParentNotEmpty = TRUE
   EarlyUnlock = FALSE
 INVARIANT Quiescent
